@@ -162,7 +162,7 @@ fn err_word(s: &str) -> String {
 }
 
 // one GET per slot at proxy pid; a probe without reply when the others have been quiet for `idle` is parked in a blocking queue
-async fn probe_proxy(net: &Arc<Net>, pid: u64, h: &Handler, idle: Duration) -> Vec<Obs> {
+async fn probe_proxy(net: &Arc<Net>, pid: u64, h: &Handler, idle: Duration, max_stall: &mut Duration) -> Vec<Obs> {
     let mut replies: Vec<Option<RespVec>> = vec![None; SLOTS];
     let mut futs = FuturesUnordered::new();
     for s in 0..SLOTS {
@@ -183,6 +183,9 @@ async fn probe_proxy(net: &Arc<Net>, pid: u64, h: &Handler, idle: Duration) -> V
         match tokio::time::timeout(tick, futs.next()).await {
             Ok(Some((s, r))) => {
                 replies[s] = Some(r.unwrap_or_else(|| Resp::Error(b"harness: canceled".to_vec())));
+                if quiet > *max_stall {
+                    *max_stall = quiet;
+                }
                 quiet = Duration::from_millis(0);
                 let g = last_ev.elapsed();
                 if g > max_gap {
@@ -197,6 +200,9 @@ async fn probe_proxy(net: &Arc<Net>, pid: u64, h: &Handler, idle: Duration) -> V
                 let n = net.log.lock().len();
                 if n != last_log {
                     last_log = n;
+                    if quiet > *max_stall {
+                        *max_stall = quiet;
+                    }
                     quiet = Duration::from_millis(0);
                 } else {
                     quiet += tick;
@@ -451,10 +457,10 @@ pub fn run_case(rt: &tokio::runtime::Runtime, line: &str) -> String {
     pids.dedup();
 
     let idle = Duration::from_millis(
-        std::env::var("UM_ROUTE_IDLE_MS").ok().and_then(|v| v.parse().ok()).unwrap_or(600),
+        std::env::var("UM_ROUTE_IDLE_MS").ok().and_then(|v| v.parse().ok()).unwrap_or(1500),
     );
 
-    let (ph, obs, note) = rt.block_on(async {
+    let (ph, obs, note, max_stall) = rt.block_on(async {
         // 2. real proxies
         let net = Net::new();
         let mut proxies: BTreeMap<u64, Handler> = BTreeMap::new();
@@ -515,8 +521,9 @@ pub fn run_case(rt: &tokio::runtime::Runtime, line: &str) -> String {
         tokio::time::sleep(Duration::from_millis(30)).await;
         // 5. probes
         let mut obs: BTreeMap<u64, Vec<Obs>> = BTreeMap::new();
+        let mut max_stall = Duration::from_millis(0);
         for (p, h) in proxies.iter() {
-            obs.insert(*p, probe_proxy(&net, *p, h, idle).await);
+            obs.insert(*p, probe_proxy(&net, *p, h, idle, &mut max_stall).await);
         }
         let ph_after = read_phases(&proxies).await;
         if ph_after != ph {
@@ -525,7 +532,7 @@ pub fn run_case(rt: &tokio::runtime::Runtime, line: &str) -> String {
         // release everything so that the proxies' tasks can finish and be dropped
         net.hold_plug.store(false, Ordering::SeqCst);
         net.handlers.lock().clear();
-        (ph, obs, note)
+        (ph, obs, note, max_stall)
     });
 
     let obs_s = obs
@@ -535,13 +542,14 @@ pub fn run_case(rt: &tokio::runtime::Runtime, line: &str) -> String {
         .join(";");
     let mon = monitor(&truth, &ph, &obs);
     format!(
-        "R {} ## V {} ## PH {} ## OBS {} ## MON {} ms={}{}",
+        "R {} ## V {} ## PH {} ## OBS {} ## MON {} ms={} stall_ms={}{}",
         resolved.join(" ; "),
         fnv(&view_text),
         phases_s(&ph),
         obs_s,
         mon,
         t_case.elapsed().as_millis(),
+        max_stall.as_millis(),
         if note.is_empty() { String::new() } else { format!(" note={}", note) }
     )
 }
